@@ -12,6 +12,7 @@ import (
 	"flag"
 	"fmt"
 	"go/ast"
+	"go/build/constraint"
 	"go/constant"
 	"go/parser"
 	"go/token"
@@ -37,16 +38,31 @@ type constDecl struct {
 }
 
 type facts struct {
-	Consts map[string]string            `json:"consts"`
-	Facts  map[string]string            `json:"facts"`
-	Tables map[string][]map[string]any  `json:"tables,omitempty"`
-	Errors []string                     `json:"errors,omitempty"`
+	Consts map[string]string           `json:"consts"`
+	Facts  map[string]string           `json:"facts"`
+	Tables map[string][]map[string]any `json:"tables,omitempty"`
+	Errors []string                    `json:"errors,omitempty"`
 }
 
 var F = &facts{Consts: map[string]string{}, Facts: map[string]string{}, Tables: map[string][]map[string]any{}}
 
 func fail(format string, a ...any) {
 	F.Errors = append(F.Errors, fmt.Sprintf(format, a...))
+}
+
+func inProductBuild(src []byte) bool {
+	for _, line := range strings.Split(string(src), "\n") {
+		t := strings.TrimSpace(line)
+		if strings.HasPrefix(t, "package ") {
+			break
+		}
+		if constraint.IsGoBuild(t) {
+			if x, err := constraint.Parse(t); err == nil {
+				return x.Eval(func(tag string) bool { return tag != "verif" })
+			}
+		}
+	}
+	return true
 }
 
 func loadPkg(repo, rel string) *pkg {
@@ -67,7 +83,11 @@ func loadPkg(repo, rel string) *pkg {
 			fail("read %s: %v", n, err)
 			continue
 		}
-		// skip files guarded for the verif hooks' "on" variant? keep everything that parses
+		// the product build is what the facts are about: a file whose build constraint is false without the tag `verif` (the
+		// accessor / hook files compiled only for the verification harness) is not part of it
+		if !inProductBuild(src) {
+			continue
+		}
 		f, err := parser.ParseFile(p.fset, filepath.Join(p.dir, n), src, parser.ParseComments)
 		if err != nil {
 			fail("parse %s/%s: %v", rel, n, err)
